@@ -191,6 +191,21 @@ def run_model(case):
         if not np.isfinite(P).all():
             bad = sorted({labels[j] for j in np.argwhere(~np.isfinite(P))[:, 2]})
             c.bad(f"{slab}/stress-nan", "non-finite stress at admissible lattice states", bad[:6], "finite")
+        # the same states handed over in another memory layout (Fortran order; state variables too) and evaluated a second
+        # time with the same arrays: same stress and tangent
+        if e["backend"] == "hand" or case["tier"] == "thorough":
+            Ff = np.asfortranarray(F)
+            svf = None if sv is None else np.asfortranarray(sv)
+            for rep in ("layout=F", "second-call"):
+                args = [Ff, svf] if rep == "layout=F" else [F, sv]
+                P2 = np.asarray(um.gradient(args)[0], dtype=float)
+                A2 = np.asarray(um.hessian(args)[0], dtype=float)
+                c.trans += 2
+                c.traces += 1
+                e1 = np.abs(P2 - P).max() / max(np.abs(P[np.isfinite(P)]).max() if np.isfinite(P).any() else 1.0, c.floor)
+                e2 = np.abs(np.broadcast_to(A2, np.broadcast_shapes(A2.shape, A.shape)) - A).max() / max(np.abs(A[np.isfinite(A)]).max() if np.isfinite(A).any() else 1.0, c.floor)
+                if not (e1 < 1e-12 and e2 < 1e-12):
+                    c.bad(f"{slab}/{rep}", "stress / elasticity differ when the same states are given in another memory layout, or on a second evaluation with the same arrays", dict(stress=float(e1), tangent=float(e2)), 0, 1e-12)
         Afd = fd_dirs(P_of, F)
         compare_tangent(c, f"{slab}/dPdF", A, Afd, labels, "elasticity tensor vs FD of the stress (all 9 directions)")
         if e["energy"] is not None and slab == "virgin":
